@@ -34,6 +34,9 @@ type job struct {
 }
 
 type ctx struct {
+	curSeed []byte    // the valid encoding the current cases are derived from
+	curWant tl.Object // what it decodes to
+
 	run      *vr.Run
 	reg      *tlx.Registry
 	seq      int64
@@ -144,6 +147,22 @@ func (c *ctx) one(e *tlx.Entry, class, id string, data []byte, gz bool) {
 			c.run.Violation(fmt.Sprintf("%s|allocation|%s", ep.name, class), fmt.Sprintf("%s: decoding %d bytes allocated %d bytes", cid, len(data), d), rep)
 		}
 	}
+	// what a refused (or accepted) input leaves behind must not disturb the next decoding: the valid encoding this
+	// case was derived from is decoded again and must still give the value it gave before any fault was tried
+	if c.curSeed != nil {
+		var got tl.Object
+		var err error
+		p, pm, fr := vr.Try(func() { got, err = tl.DecodeUnknownObject(c.curSeed) })
+		rep := map[string]any{"entry": "DecodeUnknownObject", "case": id, "data_hex": fmt.Sprintf("%x", data[:min(len(data), 96)]), "len": len(data), "then": "valid encoding decoded again"}
+		switch {
+		case p:
+			c.run.Violation(fmt.Sprintf("after-a-fault|valid-input-panics|%s|%s|%s", vr.MsgClass(pm), fr, class), fmt.Sprintf("%s: the valid encoding decoded right after this case panics: %s in %s", id, pm, fr), rep)
+		case err != nil:
+			c.run.Violation("after-a-fault|valid-input-refused|"+class, fmt.Sprintf("%s: the valid encoding decoded right after this case is refused: %v", id, err), rep)
+		case !reflect.DeepEqual(got, c.curWant):
+			c.run.Violation("after-a-fault|valid-input-decodes-differently|"+class, fmt.Sprintf("%s: the valid encoding decoded right after this case gives another value than before", id), rep)
+		}
+	}
 }
 
 func (c *ctx) seeds(e *tlx.Entry) [][]byte {
@@ -170,8 +189,13 @@ func (c *ctx) forEntry(e *tlx.Entry) {
 	if !e.IsStruct() {
 		return
 	}
+	defer func() { c.curSeed, c.curWant = nil, nil }()
 	for si, seed := range c.seeds(e) {
 		base := fmt.Sprintf("%s|seed%d", name, si)
+		c.curSeed, c.curWant = nil, nil
+		if want, err := tl.DecodeUnknownObject(seed); err == nil {
+			c.curSeed, c.curWant = seed, want
+		}
 		for l := 0; l < len(seed) && l <= 200; l++ {
 			c.one(e, "truncate", fmt.Sprintf("%s|truncate=%d", base, l), seed[:l], false)
 		}
